@@ -9,6 +9,7 @@ pub open spec fn gt_size(g: GT) -> nat
 {
     match g {
         GT::GCx(s) => 1 + gt_seq_size(s),
+        GT::GFn(n, s) => 1 + gt_seq_size(s),
         GT::GCons(a, b) => 1 + gt_size(*a) + gt_size(*b),
         _ => 1,
     }
@@ -53,14 +54,14 @@ pub open spec fn rank(s: SS, t: Unifiable) -> nat {
     }
 }
 
-// --- the terms resolution is defined on: no function term (replace_variables panics on one), and no list
+// --- the terms resolution is defined on: every term (function terms included since 8.31), but no list
 //     that is entered at a tail-variable node (`[ | $T]`, which no parser or unification produces; with it
 //     $X = [ | $T], $T = $X would make resolution loop although no occurs check is involved)
 pub open spec fn plain(t: Unifiable) -> bool
     decreases t, 1nat,
 {
     match t {
-        Unifiable::SFunction{name, terms} => false,
+        Unifiable::SFunction{name, terms} => plain_seq(terms@),
         Unifiable::Nil => false,
         Unifiable::SComplex(ts) => plain_seq(ts@),
         Unifiable::SLinkedList{term, next, count, tail_var} => !tail_var && plain_nodes(t),
@@ -140,4 +141,12 @@ pub proof fn lemma_resolved_seq_from_pointwise(s: SS, ts: Seq<Unifiable>)
         }
         lemma_resolved_seq_from_pointwise(s, ts.drop_first());
     }
+}
+
+// the value of an unevaluated function term is larger than the value of each argument
+pub proof fn lemma_fn_arg_smaller(th: Theta, n: Seq<char>, ts: Seq<Unifiable>, k: int)
+    requires 0 <= k < ts.len(),
+    ensures gt_size(ap(th, ts[k])) < gt_size(GT::GFn(n, ap_seq(th, ts))),
+{
+    lemma_complex_arg_smaller(th, ts, k);
 }
